@@ -91,7 +91,9 @@ def run_imports(ctx, res, pid, mod):
     if not imports:
         return
     summary = []
-    for ipid, prefixes, reason in imports:
+    for imp in imports:
+        ipid, prefixes, reason = imp[:3]
+        key_parts = imp[3] if len(imp) > 3 else None      # optional: only violations whose key names one of these parts
         sub = Result()
         imod = importlib.import_module("analysis.rules." + ipid)
         try:
@@ -105,6 +107,9 @@ def run_imports(ctx, res, pid, mod):
         for v in sub.violations:
             if prefixes is not None and v["rule"] not in ("INCONCLUSIVE", "ANCHOR") \
                     and not any(v["rule"].startswith(p) for p in prefixes):
+                continue
+            if key_parts is not None and v["rule"] not in ("INCONCLUSIVE", "ANCHOR") \
+                    and not any(kp in v["key"] for kp in key_parts):
                 continue
             taken += 1
             res.add_violation(dict(v, rule="%s.via(%s)" % (pid, v["rule"]), key="%s|via|%s" % (pid, v["key"]),
